@@ -103,6 +103,12 @@ Theorem C13_Proxy_precond_no_panic : forall ws r,
 Proof. exact Proxy_precond_no_panic. Qed.
 Print Assumptions C13_Proxy_precond_no_panic.
 
+(** the hand-modelled Validate() methods are all the Validate() methods the code can reach for the modelled kinds
+    (from the GENERATED list: a new Validate() method in /repo breaks this obligation) *)
+Theorem C13_validators_modelled : validators_covered ("Pipeline" :: cv_leaf) = true.
+Proof. exact validators_modelled. Qed.
+Print Assumptions C13_validators_modelled.
+
 (** refutations: with that single defect flag on (= the unchanged code at that site) validation accepts a
     document whose instance panics; the repaired code does not fail on it *)
 Theorem C13_refuted_wr_zero_total : exists c, refutes 1 c. Proof. exact refuted_wr_zero_total. Qed.
